@@ -1,0 +1,18 @@
+//go:build !verif
+
+package blocklist
+
+// Verification gate points of persist. Without the "verif" build tag the
+// gate is an empty function the compiler inlines away.
+const (
+	verifPersistEnter = iota + 1
+	verifPersistSkipped
+	verifTempCreated
+	verifWroteHeader
+	verifWroteLine
+	verifSynced
+	verifClosed
+	verifRenamed
+)
+
+func verifGate(int, uint64) {}
